@@ -38,7 +38,7 @@ struct Case {
 
 impl Case {
     fn json(&self) -> Value {
-        let route = ["direct forwarder", "SOCKS5 forwarder", "SOCKS5 forwarder, destination's first bytes coalesced with the CONNECT reply", "direct forwarder, client_listener_timeout = 2 s"][self.route as usize];
+        let route = ["direct forwarder", "SOCKS5 forwarder", "SOCKS5 forwarder, destination's first bytes coalesced with the CONNECT reply", "direct forwarder, client_listener_timeout = 2 s, idle timeout = 1 s"][self.route as usize];
         let order = ["client-first", "peer-first", "after-everything", "destination-resets-mid-download"][self.close as usize];
         json!({"kind":"l2-tunnel","index":self.index,"id":self.id,"protocol":if self.h2 {"h2"} else {"h1"},"up_bytes":self.up,"down_bytes":self.down,"up_chunk":self.up_chunk,"down_chunk":self.down_chunk,
                "client_reads_slowly":self.client_slow,"peer_reads_slowly":self.peer_slow,"close_order":order,"route":route,"pause_after_each_chunk_ms":self.pace_ms})
@@ -407,7 +407,7 @@ pub fn run_l2(rep: &Reporter, args: &Args) {
         let ep_short = {
             let d = env::work_dir(&args.root, "c02short");
             start_endpoint(&d, "127.0.0.1", &hosts, None, vec![], (true, true, false), |b| {
-                b.allow_private_network_connections(true).tcp_connections_timeout(Duration::from_secs(300)).client_listener_timeout(Duration::from_secs(2))
+                b.allow_private_network_connections(true).tcp_connections_timeout(Duration::from_secs(1)).client_listener_timeout(Duration::from_secs(2))
             }).await
         };
         let route_addr = [ep.addr, s5_eps[0].addr, s5_eps[1].addr, ep_short.addr];
@@ -453,6 +453,11 @@ pub fn run_l2(rep: &Reporter, args: &Args) {
         }
         for (k, (h2, route)) in [(true, 1u8), (false, 1), (true, 2), (false, 2)].into_iter().enumerate() {
             cases.push(Case { index: 5_000_000 + k as u64, id: common::fnv(format!("c02l2-s5rst-{}-{}", seed, k).as_bytes()), h2, up: 0, down: 200_000, up_chunk: 16_384, down_chunk: 16_384, client_slow: false, peer_slow: false, close: 3, route, pace_ms: 0 });
+        }
+        // one-way steady transfers on the same endpoint (idle timeout 1 s): the silent direction's timer fires every second
+        // and cancels the copy loop of the busy direction, which must resume without losing or inventing a byte
+        for (k, (h2, up, down)) in [(false, 15_000usize, 0usize), (true, 15_000, 0), (false, 0, 15_000), (true, 0, 15_000)].into_iter().enumerate() {
+            cases.push(Case { index: 7_000_000 + k as u64, id: common::fnv(format!("c02l2-oneway-{}-{}", seed, k).as_bytes()), h2, up, down, up_chunk: 1000, down_chunk: 1000, client_slow: false, peer_slow: false, close: 2, route: 3, pace_ms: 200 });
         }
         // steady transfers (a 1000-byte chunk every 200 ms each way, 5 s) on a session that gets no other request meanwhile
         for (k, h2) in [false, true].into_iter().enumerate() {
